@@ -127,10 +127,54 @@ def _setup():
   for dep, cls in (('G', vizier_server.DefaultVizierServer),
                    ('D', vizier_server.DistributedPythiaVizierServer)):
     for backend, url in (('ram', None), ('sql', 'sqlite:///:memory:')):
-      _STATE[(dep, backend)] = cls(database_url=url,
-                                   early_stop_recycle_period=recycle,
-                                   policy_factory=_factory())
+      _STATE[(dep, backend)] = _start_server(
+          lambda cls=cls, url=url: cls(database_url=url,
+                                       early_stop_recycle_period=recycle,
+                                       policy_factory=_factory()))
   return _STATE
+
+
+def _start_server(make, attempts=6):
+  """Starts a server and proves that its ports really are its own.
+
+  The server classes pick "unused" ports with portpicker; when many worker
+  processes start servers at the same moment two of them can be given the
+  same port, and a Vizier server then talks to somebody else's port
+  ("UNIMPLEMENTED: Method not found"). That is a property of this harness
+  (16 processes x 4 servers), not of the code under test: a server that cannot
+  answer a trivial suggestion is discarded and started again on new ports."""
+  import os
+  from vizier._src.service import clients
+  last = None
+  for k in range(attempts):
+    try:
+      srv = make()
+    except Exception as e:  # pylint: disable=broad-except
+      last = repr(e)[:300]
+      continue
+    try:
+      env = clients.environment_variables
+      old = env.server_endpoint
+      env.server_endpoint = srv.endpoint
+      try:
+        st_ = clients.Study.from_study_config(
+            _config('custom'), owner='probe-%d-%d' % (os.getpid(), k),
+            study_id='probe')
+        got = st_.suggest(count=1, client_id='probe')
+        if len(got) == 1:
+          return srv
+        last = 'probe suggestion returned %d trials' % len(got)
+      finally:
+        env.server_endpoint = old
+    except Exception as e:  # pylint: disable=broad-except
+      last = repr(e)[:300]
+    try:
+      srv._server.stop(0)  # pylint: disable=protected-access
+      if hasattr(srv, '_pythia_server'):
+        srv._pythia_server.stop(0)  # pylint: disable=protected-access
+    except Exception:  # pylint: disable=broad-except
+      pass
+  raise RuntimeError('harness: could not start a working server: %s' % last)
 
 
 def _select(dep, backend):
